@@ -179,7 +179,9 @@ func (r *replicateChannelManager) startReadCollectionForKafka(ctx context.Contex
 	_, ok := r.replicateCollections[info.ID]
 	r.collectionLock.RUnlock()
 	if ok {
-		return nil, errors.Newf("the collection has been replicated, wait it [collection name: %s] to drop...", info.Schema.Name)
+		// a second notification about a collection that is being replicated has no further effect
+		log.Info("the collection is already replicated", zap.String("collection_name", info.Schema.Name))
+		return nil, nil
 	}
 
 	// send api event when the collection is not replicated and ctx is not done
@@ -218,17 +220,21 @@ func (r *replicateChannelManager) startReadCollectionForKafka(ctx context.Contex
 }
 
 func (r *replicateChannelManager) startReadCollectionForMilvus(ctx context.Context, info *pb.CollectionInfo, sourceDBInfo *model.DatabaseInfo) (*model.CollectionInfo, error) {
+	// a second notification about a collection that is being replicated (it was listed and
+	// watched, or its record was written again) has no further effect
+	r.collectionLock.RLock()
+	_, ok := r.replicateCollections[info.ID]
+	r.collectionLock.RUnlock()
+	if ok {
+		log.Info("the collection is already replicated", zap.String("collection_name", info.Schema.Name))
+		return nil, nil
+	}
+
 	var err error
 	retryErr := retry.Do(ctx, func() error {
 		_, err = r.targetClient.GetCollectionInfo(ctx, info.Schema.GetName(), sourceDBInfo.Name)
 		if err != nil && !IsCollectionNotFoundError(err) && !IsDatabaseNotFoundError(err) {
 			return err
-		}
-		r.collectionLock.RLock()
-		_, ok := r.replicateCollections[info.ID]
-		r.collectionLock.RUnlock()
-		if ok {
-			return errors.Newf("the collection has been replicated, wait it [collection name: %s] to drop...", info.Schema.Name)
 		}
 		// collection not found will exit the retry
 		return nil
